@@ -279,3 +279,17 @@ CHECKS["C10"] = dict(
                      "TestC10Cleanup.cleanup_restarts": 12}),
     assumptions=["restarts are issued at quiescent points (the skip-count clause is stated for recorded progress)"],
 )
+
+CHECKS["C17"] = dict(
+    level="exploration",
+    rule=("real manager over doubles with 1-4 global subscribers registered for the whole run (some yielding inside the callback for back-pressure), more subscribed and "
+          "unsubscribed from other goroutines at PRNG points, per-transfer subscribers (WithSubscriber) on initiator channels; 1-6 channels of random roles; 20-149 PRNG stimuli "
+          "drawn from every counterparty message kind (both arrival paths), every transport callback and every API call, including ones the state machine ignores as invalid. "
+          "Oracle: the datastore WRITE LOG is the reference of applied events: per channel the (collapsed) snapshot sequence each whole-run subscriber saw must equal the sequence "
+          "of stored records decoded by the independent decoder (count, order, every accessor incl. stage log); all whole-run subscribers agree; an announced event must show its "
+          "defining effect (else it was an ignored event); byte totals move only on progress events; a per-transfer subscriber gets exactly its channel's events in the same order "
+          "and is released at termination (hook); a subscriber is never called again once its unsubscribe returned and the queue drained. distinct = statuses reached x sizes."),
+    parts=[dict(test="TestC17Subs", quick=160, thorough=9000, per_shard=10)],
+    floors=dict(any={"TestC17Subs.events_checked": 8000, "TestC17Subs.per_transfer_checked": 80, "TestC17Subs.unsubscribed_checked": 100, "TestC17Subs.late_subscribers": 100, "TestC17Subs.opened_during_terminal_delivery": 15}),
+    assumptions=["one applied event = one datastore write unless the record is byte-identical (collapsed on both sides); the harness advances the virtual clock between stimuli"],
+)
